@@ -113,7 +113,16 @@ func VerifC10_CompletingOnlyWhenEmpty() {
 	vAssert(post != "Completed" && post != "Failed", "L3 no single ask/allocation operation terminates a live application")
 	if post == "Completing" {
 		vAssert(len(w.app.requests) == 0 || isZeroRes(w.app.pending), "L3 an application turns Completing only without pending asks")
-		vAssert(len(w.app.allocations) == 0, "L3 an application turns Completing only when it holds no allocation, real or placeholder")
+		real := 0
+		for _, a := range w.app.allocations {
+			if !a.placeholder {
+				real++
+			}
+		}
+		vAssert(real == 0, "L3 an application turns Completing only when it holds no real allocation")
+		if op == 0 {
+			vAssert(len(w.app.allocations) == 0, "L3 removing asks turns an application Completing only when it holds no allocation at all, placeholders included")
+		}
 	}
 	if op == 2 {
 		vAssert(post != "Completing", "L3 adding an ask never leaves the application Completing")
